@@ -19,7 +19,7 @@ ASSUMPTIONS = c01.ASSUMPTIONS
 
 SHORT = [0]      # how many bitmap bytes the 'shortrec' record keeps (set per case)
 KINDS = ['truncated', 'oversized', 'badmti', 'unknownbit', 'badlen', 'badtyped', 'badpds', 'badicc', 'shortrec',
-         'shortfixed', 'shortvar2', 'shortvar3', 'surplus']
+         'shortfixed', 'shortvar2', 'shortvar3', 'surplus', 'unknownbit_end', 'unknownbit_128']
 
 
 def custom_config():
@@ -81,6 +81,10 @@ def bad_record(kind, codec):
         return e('1240') + bm([2, 48]) + e('0212' + '050' + '0023003ABC0158000XXX')
     if kind == 'surplus':
         return e('1240') + bm([2]) + e('0212' + '7')
+    if kind == 'unknownbit_end':     # the unknown bit is above every present element; no byte is left for it
+        return e('1240') + bm([2, 126]) + e('0212')
+    if kind == 'unknownbit_128':     # a configured element flagged after the data has run out
+        return e('1240') + bm([2, 94]) + e('0212')
     if kind == 'custombit':      # fine for the packaged configuration, unknown bit 49 for custom_config()
         return e('1240') + bm([2, 49]) + e('0212' + '978')
     return good_record(1, codec)
